@@ -225,10 +225,20 @@ def check_cursor_method(inst, V, ctx, path, c, L, direction, checked_steps):
     wt = b.writes_through.get(1, [])
     paths = [p for p in S.simple_paths(b) if p[1] != 'continue']
     seen_none = seen_some = False
+    def try_checked_sub(t):
+        """t = Try::branch(len.checked_sub(1)) with len read at entry -> t (stripped), else None"""
+        t = V.strip(t)
+        if t[0] == 'call' and str(t[1]).endswith('Try::branch') and len(t[2]) == 1:
+            x = V.strip(t[2][0])
+            if x[0] == 'call' and x[1] == 'int::checked_sub' and len(x[2]) == 2 and x[2][1] == ('int', 'usize', 1):
+                return t, x[2][0]
+        return None
     for path_blocks, kind, _ in paths:
+        gs = S.path_guards(b, path_blocks)
+        if kind == 'unreachable' and gs and gs[-1][1][0] == 'sw' and gs[-1][1][1][0] == 'discr' and gs[-1][1][2][0] == 'not' and len(gs[-1][1][2][1]) == 2:
+            continue          # the arm rustc adds after the two variants of a two-variant enum (ControlFlow, Option) have been matched
         if kind != 'return':
             bad('a path of %s ends in a %s' % (name, kind), 'undischarged'); return False
-        gs = S.path_guards(b, path_blocks)
         writes = [(bb, i) for (bb, i) in wt if bb in path_blocks]
         def entry_load(t, k):
             """t reads field k of *self at a point before any write to field k on this path"""
@@ -243,7 +253,29 @@ def check_cursor_method(inst, V, ctx, path, c, L, direction, checked_steps):
             return True
         len_zero = None
         ovf_ok = False
+        new_len = None          # the term that denotes len - 1 on this path when the test itself computes it
+        cur_arm = None          # 'Some' / 'None' when the path matched on the old cursor (a `match` instead of and_then)
         for blk, g in gs:
+            if g[0] == 'sw' and g[1][0] == 'discr':
+                tc = try_checked_sub(g[1][1])
+                if tc is not None:
+                    tb, lenr = tc
+                    if entry_load(lenr, L) and g[2] in (('in', (0,)), ('in', (1,))):
+                        # `self.len = self.len.checked_sub(1)?`: Continue(len - 1) iff len >= 1, Break(None) iff len == 0
+                        len_zero = g[2] == ('in', (1,))
+                        if not len_zero:
+                            new_len = ('field', ('downcast', tb, 'Continue'), 0)
+                            ovf_ok = True
+                        continue
+                if entry_load(g[1][1], c) and S.option_arm(g) is not None:
+                    cur_arm = S.option_arm(g)       # `match old_cursor { Some(x) => x.step(), None => None }`
+                    continue
+            if g[0] == 'sw' and entry_load(g[1], L) and g[2] in (('in', (0,)), ('not', (0,))):
+                # `match self.len { 0 => .., _ => .. }`
+                len_zero = g[2] == ('in', (0,))
+                if not len_zero:
+                    ovf_ok = True
+                continue
             if g[0] == 'sw' and g[1][0] == 'bin' and g[1][1] in ('Eq', 'Ne'):
                 x, y = g[1][2], g[1][3]
                 if entry_load(x, L) and y == ('int', 'usize', 0):
@@ -255,6 +287,10 @@ def check_cursor_method(inst, V, ctx, path, c, L, direction, checked_steps):
                 continue
             bad('%s branches on %s; the rule set knows only the test `len == 0`' % (name, show(g[1])), 'unrecognised'); return False
         val = V.strip(S.path_return(b, path_blocks))
+        if val[0] == 'call' and str(val[1]).endswith('FromResidual::from_residual') and len(val[2]) == 1:
+            r0 = V.strip(val[2][0])
+            if r0[0] == 'field' and r0[1][0] == 'downcast' and r0[1][2] == 'Break' and try_checked_sub(r0[1][1]) is not None:
+                val = ('agg', 'adt|core::option::Option|None', ())       # `None?` of an Option-returning function is None
         if len_zero is True:
             if not S.is_none(val):
                 bad('%s returns %s when len == 0, required None' % (name, show(val))); return False
@@ -273,28 +309,45 @@ def check_cursor_method(inst, V, ctx, path, c, L, direction, checked_steps):
             wk = [x.get('i') for x in st['place']['pr'][1:]]
             if len(wk) != 1 or wk[0] in got:
                 bad('unexpected write to the iterator state', 'unrecognised'); return False
-            got[wk[0]] = V.strip(b.rvalue(st['rv'], (bb, i)))
+            got[wk[0]] = V.strip(S.resolve_phi(V.strip(b.rvalue(st['rv'], (bb, i))), path_blocks))     # a value joined from the arms of a `match`: the arm on this path
         if set(got) != {c, L}:
             missing = {c, L} - set(got)
             extra = set(got) - {c, L}
             bad('%s must update exactly its own cursor and len; %s%s' % (name, ('it does not update field(s) %s ' % sorted(missing)) if missing else '', ('it writes field(s) %s' % sorted(extra)) if extra else ''), cls='/writes'); return False
         lt = got[L]
-        if not (lt[0] == 'bin' and lt[1] in ('Sub_checked', 'Sub') and entry_load(lt[2], L) and lt[3] == ('int', 'usize', 1)):
-            bad('%s sets len to %s, required len - 1' % (name, show(lt)), cls='/len'); return False
-        if lt[1] == 'Sub_checked' and not ovf_ok:
+        if new_len is not None and lt == new_len:
+            pass                                     # the Continue payload of len.checked_sub(1): len - 1, cannot underflow
+        elif lt[0] == 'call' and lt[1] == 'int::wrapping_sub' and entry_load(lt[2][0], L) and lt[2][1] == ('int', 'usize', 1) and ovf_ok:
+            pass                                     # wrapping_sub(1) under len != 0 is len - 1
+        elif not (lt[0] == 'bin' and lt[1] in ('Sub_checked', 'Sub') and entry_load(lt[2], L) and lt[3] == ('int', 'usize', 1)):
+            bad('%s sets len to %s, required len - 1' % (name, show(lt)), 'refuted' if lt[0] in ('int', 'bin') else 'unrecognised', cls='/len'); return False
+        elif lt[1] == 'Sub_checked' and not ovf_ok:
             bad('len - 1 may underflow', 'undischarged'); return False
         ct = got[c]
-        if not (ct[0] == 'call' and ct[1] == S.OPT_AND_THEN and entry_load(ct[2][0], c)):
-            bad('%s sets its cursor to %s, required old_cursor.and_then(step)' % (name, show(ct)), 'unrecognised'); return False
-        clo = V.strip(ct[2][1])
-        if clo[0] != 'agg' or not clo[1].startswith('closure|'):
-            bad('cursor step is not a closure', 'unrecognised'); return False
-        cb = V.I.body(clo[1].split('|', 1)[1])
-        calts = cb.ret_alternatives()
-        lc = local_call(V, calts[0][1]) if len(calts) == 1 and not cb.loops() else None
-        if lc is None or len(lc[1]) != 1 or V.strip(lc[1][0]) != ('arg', 1):
-            bad('cursor step closure is not `|x| x.step()`', 'unrecognised'); return False
-        fpath = lc[0]
+        if cur_arm == 'None':
+            # `match old_cursor { .., None => None }`: what and_then gives for None
+            if not S.is_none(ct):
+                bad('%s sets its cursor to %s when the old cursor is None, required None' % (name, show(ct))); return False
+            seen_some = True
+            continue
+        if cur_arm == 'Some':
+            lc = local_call(V, ct)
+            a0 = V.strip(lc[1][0]) if lc is not None and len(lc[1]) == 1 else None
+            if not (a0 is not None and a0[0] == 'field' and a0[2] == 0 and a0[1][0] == 'downcast' and a0[1][2] == 'Some' and entry_load(a0[1][1], c)):
+                bad('%s sets its cursor to %s, required step(x) for the old cursor Some(x)' % (name, show(ct)), 'unrecognised'); return False
+            fpath = lc[0]
+        else:
+            if not (ct[0] == 'call' and ct[1] == S.OPT_AND_THEN and entry_load(ct[2][0], c)):
+                bad('%s sets its cursor to %s, required old_cursor.and_then(step)' % (name, show(ct)), 'unrecognised'); return False
+            clo = V.strip(ct[2][1])
+            if clo[0] != 'agg' or not clo[1].startswith('closure|'):
+                bad('cursor step is not a closure', 'unrecognised'); return False
+            cb = V.I.body(clo[1].split('|', 1)[1])
+            calts = cb.ret_alternatives()
+            lc = local_call(V, calts[0][1]) if len(calts) == 1 and not cb.loops() else None
+            if lc is None or len(lc[1]) != 1 or V.strip(lc[1][0]) != ('arg', 1):
+                bad('cursor step closure is not `|x| x.step()`', 'unrecognised'); return False
+            fpath = lc[0]
         key = (fpath, direction)
         if key not in checked_steps:
             it = inst.crate.items.get(fpath)
